@@ -10,7 +10,7 @@ PROP = {
     ],
     "rule": "import: chain of 1-6 imports of 1-2 pipelines, each new config = mutation of the last imported one (1-3 mutations out of 20 kinds, "
             "lists 0-5), 1/7 made invalid (unknown processor plugin, bad connector type, negative workers), store failure index 1-40 on one or "
-            "several imports, position / status writes in between; non-trivial = chain of >= 2 imports or a failed import; distinct = distinct lines",
+            "several imports, positions of sources and destinations written between imports (3/4), plugin-only connector changes among the mutations, status writes in between; non-trivial = chain of >= 2 imports or a failed import; distinct = distinct lines",
     "strength": "idempotent, store-level failure atomicity, position kept: full (all variants, states, configs, failing indices); convergence and "
                 "memory-level failure atomicity: decided per history by the monitor on the correspondence-tied model, not proved in general",
     "assumptions": ["one failing store operation per import (a validation failure plus a store failure during its rollback is outside the quantifier)",
